@@ -157,14 +157,22 @@ def shrink(c):
 
 
 MANIFEST = {
-    "text": "Counting specification (Spec/Count.v: the histogram over all assignments of the other units of the bounded "
-            "tally, invalid when a boundary row is absent or a bound is exceeded) and an executable model of "
-            "ShapleyOracle.__init__/query on the ADD model; theorems as listed in coverage.theorems of each run (full "
-            "statement C09_oracle_counts kept as a Definition until proved). Tied to the code at unit level: every "
-            "target x boundary pair of every instance is queried; result dictionaries vs the oracle model on the "
-            "dumped compiled diagram (validated by compiled_ok inside Coq) and vs the counting specification.",
-    "note": "Trusted: Coq kernel + vm_compute; harness; compile() validated per instance, not proved. F12 (one-unit "
-            "instances) is an open known finding.",
-    "technique": "Coq counting specification + executable oracle model; exhaustive per-instance query correspondence "
-                 "and translation validation of the compiled diagram evaluated by vm_compute",
+    "text": "Proof: C09_oracle_exact -- the executable model of ShapleyOracle.__init__/query on the ADD model (increments at "
+            "the compiled row locations of every row no farther than the boundary, invalidating value 0 of the boundary "
+            "row's units, restrict of the target to 1/0, sum, +1 per present unit, modelcount) returns EXACTLY the counting "
+            "specification (Spec/Count.v: the histogram over all assignments of the other units of the bounded tally, "
+            "invalid when a boundary row is absent or a bound is exceeded), for every hypergraph, labels, distances, K, "
+            "class count, target and boundary pair and every well-formed compiled diagram in unit order whose row "
+            "locations are valid (>= 2 units; the one-unit case is F12); C09_oracle_chain_exact -- compile() in the chain "
+            "case (one unit per row) produces such a diagram, no further hypothesis; C09_spec_total (counts add up to "
+            "2^(units-1)). PARTIAL in one link: compile() in the leaf/factor case (stack/concatenate, non-identity variable "
+            "order) is not modelled; there the dumped diagram and locations are validated per instance by compiled_ok "
+            "inside Coq. Tied to the code at unit level: every target x boundary pair of every instance is queried; "
+            "result dictionaries vs the oracle model on the dumped compiled diagram and vs the counting specification.",
+    "note": "Trusted: Coq kernel + vm_compute; harness; compile() in the leaf/factor case validated per instance, not "
+            "proved. F12 (one-unit instances) is an open known finding.",
+    "technique": "Coq proof (edge-update semantics by associativity/commutativity of saturating addition, structural "
+                 "invariants of restrict and of the product construction, the C10 theorems for sum/restrict/modelcount) + "
+                 "executable oracle model; exhaustive per-instance query correspondence and translation validation of "
+                 "the compiled diagram evaluated by vm_compute",
 }
